@@ -1,11 +1,11 @@
 package main
 
 import (
-	"io"
-	"context"
 	"bytes"
+	"context"
 	"encoding/base64"
 	"fmt"
+	"io"
 	"mime/multipart"
 	"net/http"
 	"net/http/httptest"
@@ -121,13 +121,13 @@ func (gatesEngine) Corpus() []Case {
 			h("Basic " + b64("", "")),         // ":"
 			h("Basic " + b64("test", "1:23")), // colon in the password
 			h("Basic " + b64("test", "shadowed")),
-			h("Basic " + base64.StdEncoding.EncodeToString([]byte("test123"))),         // no colon
-			h("Basic " + strings.TrimRight(b64("test", "123x"), "=")),                  // padding removed
-			h("Basic " + b64("test", "123") + "="),                                     // trailing garbage
-			h("Basic !!!!"),                                                            // not base64
+			h("Basic " + base64.StdEncoding.EncodeToString([]byte("test123"))),          // no colon
+			h("Basic " + strings.TrimRight(b64("test", "123x"), "=")),                   // padding removed
+			h("Basic " + b64("test", "123") + "="),                                      // trailing garbage
+			h("Basic !!!!"),                                                             // not base64
 			h("Basic " + base64.URLEncoding.EncodeToString([]byte("test:\xfb\xff123"))), // url-safe alphabet
-			h("Basic  " + b64("test", "123")),                                          // two spaces
-			h("Basic" + b64("test", "123")),                                            // no space
+			h("Basic  " + b64("test", "123")),                                           // two spaces
+			h("Basic" + b64("test", "123")),                                             // no space
 			h("Basic"), h("Basic "), h("Basi"),
 			h("Bearer " + b64("test", "123")),
 			h("Digest username=\"test\""),
@@ -171,13 +171,13 @@ func (gatesEngine) Corpus() []Case {
 		// the field of a multipart/form-data body: FormValue sees it, behind the query value, before the header
 		"ovr d "+hx("POST")+" ~ M"+hx("put")+" ~",
 		"ovr r "+hx("POST")+" ~ N"+hx("Delete")+" ~",
-		"ovr d "+hx("POST")+" "+hx("DELETE")+" M"+hx("put")+" ~",           // multipart field wins over the header
-		"ovr d "+hx("POST")+" "+hx("DELETE")+" N"+hx("GET")+" ~",           // invalid multipart value: no fall back to the header
-		"ovr d "+hx("POST")+" "+hx("DELETE")+" M- ~",                        // empty multipart value: header is used
-		"ovr d "+hx("POST")+" ~ M"+hx("put")+" "+hx("patch"),               // the query value stands BEFORE the multipart value
-		"ovr r "+hx("POST")+" ~ N"+hx("put")+" "+hx("GET"),                 // ... even when it is invalid
-		"ovr d "+hx("POST")+" "+hx("DELETE")+" N"+hx("put")+" -",           // ... or empty (then the header is used)
-		"ovr d "+hx("PUT")+" ~ M"+hx("delete")+" ~",                        // not a POST: untouched
+		"ovr d "+hx("POST")+" "+hx("DELETE")+" M"+hx("put")+" ~", // multipart field wins over the header
+		"ovr d "+hx("POST")+" "+hx("DELETE")+" N"+hx("GET")+" ~", // invalid multipart value: no fall back to the header
+		"ovr d "+hx("POST")+" "+hx("DELETE")+" M- ~",             // empty multipart value: header is used
+		"ovr d "+hx("POST")+" ~ M"+hx("put")+" "+hx("patch"),     // the query value stands BEFORE the multipart value
+		"ovr r "+hx("POST")+" ~ N"+hx("put")+" "+hx("GET"),       // ... even when it is invalid
+		"ovr d "+hx("POST")+" "+hx("DELETE")+" N"+hx("put")+" -", // ... or empty (then the header is used)
+		"ovr d "+hx("PUT")+" ~ M"+hx("delete")+" ~",              // not a POST: untouched
 		"ovr d "+hx("POST")+" ~ M"+hx("PUT\n")+" ~",
 		"ovr d "+hx("POST")+" "+hx("DELETſ")+" ~ ~", // U+017F upper-cases to S: "DELETS"
 		"ovr d "+hx("POST")+" "+hx("ｐｕｔ")+" ~ ~",
@@ -213,7 +213,7 @@ func (gatesEngine) Corpus() []Case {
 		"chain 1 H,m1,n,m2/A," + hx("test") + ":" + hx("123") + "/W0,m3/H,m4 ~",
 		"chain 0 A/H,m1 " + good, // no accounts configured: any credentials pass
 		"chain 0 A/H,m1 ~",
-		"chain 0 H,m1,a/W0,m2/H,m3 ~",                      // abort before the wrapped handler
+		"chain 0 H,m1,a/W0,m2/H,m3 ~",                       // abort before the wrapped handler
 		"chain 1 H,b" + hx("early") + ",n/A/H,m1 ~",         // body committed before the gate: status stays 200
 		"chain 0 W0,s404,s500,b" + hx("a") + ",s201/H,m1 ~", // lazy status inside a wrapped handler
 		"chain 0 H,n,n,m1/W1,m2/H,m3 ~",                     // Next twice
